@@ -51,9 +51,9 @@ func c18keys() []c18key {
 		{"gnb_gtp_ip", "Gnb_gtp", "string", ipAlts("192.168.61.3")},
 		{"stg_ngap_ip", "StgNgapIP", "string", ipAlts("192.168.61.3")},
 		{"stg_ngap_port", "StgNgapPort", "int", portAlts(9487)},
-		{"gnb_id", "Gnb_id", "string", []c18val{sv(`"\x00\x01\x02"`, "\x00\x01\x02"), sv(`"\x7f\x00\x7e\x01"`, "\x7f\x00\x7e\x01"), sv(`"abc"`, "abc"), sv(`"é\x01"`, "é\x01"), sv(`"\t\n\\\""`, "\t\n\\\""), sv(`""`, ""), sv(`"\0\x01\x02"`, "\x00\x01\x02")}},
+		{"gnb_id", "Gnb_id", "string", []c18val{sv(`"\x00\x01\x02"`, "\x00\x01\x02"), sv(`"\x7f\x00\x7e\x01"`, "\x7f\x00\x7e\x01"), sv(`"abc"`, "abc"), sv(`"é\x01"`, "é\x01"), sv(`"\t\n\\\""`, "\t\n\\\""), sv(`""`, ""), sv(`"\0\x01\x02"`, "\x00\x01\x02"), sv(`"\x20\x01\x20"`, "\x20\x01\x20"), sv(`"\x09\x01\x0d"`, "\x09\x01\x0d")}},
 		{"gnb_bitlength", "Gnb_bitlength", "uint64", []c18val{{"24", uint64(24)}, {"22", uint64(22)}, {"32", uint64(32)}, {"0", uint64(0)}, {"27", uint64(27)}}},
-		{"gnb_name", "Gnb_name", "string", []c18val{sv(`"open5gs"`, "open5gs"), sv("gnb-1", "gnb-1"), sv(`""`, ""), sv(`"name with spaces"`, "name with spaces"), sv(`"` + strings.Repeat("x", 150) + `"`, strings.Repeat("x", 150)), sv(`'single #quoted'`, "single #quoted")}},
+		{"gnb_name", "Gnb_name", "string", []c18val{sv(`"open5gs"`, "open5gs"), sv("gnb-1", "gnb-1"), sv(`""`, ""), sv(`"name with spaces"`, "name with spaces"), sv(`"` + strings.Repeat("x", 150) + `"`, strings.Repeat("x", 150)), sv(`'single #quoted'`, "single #quoted"), sv(`" gnb 7 "`, " gnb 7 ")}},
 		{"initial_imsi", "Initial_imsi", "string", []c18val{sv(`"001010000000001"`, "001010000000001"), sv(`"999990123456789"`, "999990123456789"), sv(`"00101000000001"`, "00101000000001"), sv(`'000000000000000'`, "000000000000000"), sv(`""`, "")}},
 		{"mcc", "Mcc", "string", []c18val{sv(`"001"`, "001"), sv(`"999"`, "999"), sv(`'000'`, "000"), sv(`"208"`, "208")}},
 		{"mnc", "Mnc", "string", []c18val{sv(`"01"`, "01"), sv(`"001"`, "001"), sv(`"99"`, "99"), sv(`'00'`, "00"), sv(`"410"`, "410")}},
